@@ -1,6 +1,10 @@
 SPECIFICATION Spec
 CONSTANTS
   Clients = {1, 2}
+  Procs = {1, 2}
+  ClientOf <- CO_id
+  NilProcs = {}
+  LoadProcs = {1, 2}
   Keys = {1}
   MaxInc = 2
   MaxLoads = 2
@@ -16,6 +20,9 @@ CONSTANTS
   BugReturnPh = FALSE
   BugNoLiveness = FALSE
   BugDelNoCompare = TRUE
+  BugNoAdopt = FALSE
+  BugNilFastPath = FALSE
+  BugStealPlainDel = FALSE
   Record = FALSE
   GenLen = 30
 INVARIANTS DelOnlyOwn
